@@ -7,6 +7,7 @@ pub mod c07;
 pub mod c07b;
 pub mod c08;
 pub mod c09;
+pub mod c10;
 pub mod txinv;
 pub mod c11;
 pub mod c11b;
@@ -14,6 +15,7 @@ pub mod c12;
 pub mod c13;
 pub mod c14;
 pub mod c27;
+pub mod c28;
 pub mod c32;
 
 macro_rules! table {
@@ -37,11 +39,13 @@ pub fn dispatch(ctx: &Ctx, replay: Option<&str>) -> i32 {
         "C07" => c07,
         "C08" => c08,
         "C09" => c09,
+        "C10" => c10,
         "C11" => c11,
         "C12" => c12,
         "C13" => c13,
         "C14" => c14,
         "C27" => c27,
+        "C28" => c28,
         "C32" => c32,
     )
 }
